@@ -402,9 +402,8 @@ async def _new_transfer(i: tuple, rng: random.Random, base: str, state=None):
 
 
 def _write(manager, legacy: set, how: str):
-    """Snapshot + write. Legacy records are pickled in the shape of the
+    """Write through the class under test. Legacy records are pickled in the shape of the
     repository's fixture: no abort_reason, with _offset / bytes_written / bytes_read."""
-    expected = [snap(t, legacy=id(t) in legacy) for t in manager.transfers]
     stripped = []
     for t in manager.transfers:
         if id(t) in legacy:
@@ -426,7 +425,65 @@ def _write(manager, legacy: set, how: str):
                 t.__dict__['_offset'] = offset
             else:
                 t.__dict__.pop('_offset', None)
-    return expected
+
+
+# The stored format of the pinned commit, frozen here as DATA: the record is the pickled
+# dict of these attributes with the state stored by value, under the key
+# sha256(username + remote_path + direction) of that commit. Nothing of the class under
+# test takes part in writing such a record (its __getstate__ is bypassed).
+PINNED_FIELDS = ('direction', 'username', 'remote_path', 'local_path', 'remotely_queued', 'place_in_queue',
+                 'fail_reason', 'abort_reason', 'filesize', 'bytes_transfered', 'queue_attempts',
+                 'last_queue_attempt', 'upload_request_attempts', 'last_upload_request_attempt', 'start_time',
+                 'complete_time')
+
+
+def _pinned_state(t, legacy: bool) -> dict:
+    d = {'state': t.state.VALUE}
+    for f in PINNED_FIELDS:
+        d[f] = getattr(t, f)
+    if '_offset' in t.__dict__:
+        d['_offset'] = t.__dict__['_offset']
+    if legacy:
+        # the still older layout of tests/unit/resources/data/transfers.*
+        d.pop('abort_reason')
+        d['_offset'] = None
+        d['bytes_written'] = 0
+        d['bytes_read'] = 0
+    return d
+
+
+def _write_pinned(cache_dir: str, transfers: list, legacy: set, protocol: int) -> list[dict]:
+    """The whole list as the previous version of the library left it on disk.
+    Returns the snapshot of what the database holds."""
+    import copyreg
+    import dbm
+    import hashlib
+    import io
+    import pickle
+    from aioslsk.transfer.model import Transfer
+    records: dict = {}
+    for t in transfers:
+        state = _pinned_state(t, id(t) in legacy)
+        buf = io.BytesIO()
+        pickler = pickle.Pickler(buf, protocol=protocol)
+        pickler.dispatch_table = {Transfer: lambda obj, state=state: (copyreg.__newobj__, (Transfer,), state)}
+        pickler.dump(t)
+        key = hashlib.sha256((t.username + t.remote_path + str(t.direction.value)).encode('utf-8')).hexdigest()
+        records[key] = (buf.getvalue(), t)       # that commit's writer: a later transfer with the same key wins
+    db = dbm.open(os.path.join(cache_dir, 'transfers'), 'c')
+    try:
+        for k in list(db.keys()):
+            del db[k]
+        for k, (raw, _) in records.items():
+            db[k.encode('utf-8')] = raw
+    finally:
+        db.close()
+    out = []
+    for _, t in records.values():
+        e = snap(t, legacy=id(t) in legacy)
+        e['foreign'] = True
+        out.append(e)
+    return out
 
 
 async def _run_sub(res: dict, rng: random.Random, base: str, plan: dict) -> dict:
